@@ -42,7 +42,7 @@ enum Op { Push(Val), Extend(Vec<Val>), Wrapper(Vec<Val>), Build }
 fn arrays_equal(a: &[Array], b: &[Array]) -> bool { arrgen::arrays_eq(a, b) }
 
 pub fn run(ctx: &mut Ctx) {
-    ctx.runner = "RunC01".into();
+    ctx.runner = "RunC10".into();
     ctx.shard_size = 120;
     ctx.rule = "histories of push / extend / serialize-through-Serializer / build on one ArrayBuilder (1-6 builds incl. empty and repeated builds) over schemas with per-batch state (dictionaries, dense unions, lists, maps, nullable structs, view types) and random schemas; every returned batch is (a) compared with to_marrow of exactly the rows added since the previous build, (b) compared with a freshly constructed builder fed the same rows, (c) emitted as a RunC01 case (decode = interp, wf, builder model). Non-trivial = at least two builds with rows in between; distinct by (schema, batch rows, result)".into();
     let n = if ctx.thorough { 8000 } else { 500 };
@@ -76,7 +76,7 @@ pub fn run(ctx: &mut Ctx) {
             Out::Ok(batches) => {
                 let nb = batches.iter().filter(|(r, _)| !r.is_empty()).count();
                 for (k, (rows, arrays)) in batches.iter().enumerate() {
-                    let coq = format!("{{| c_fields := {}; c_rows := {}; c_impl := (Ok {}) |}}", cf::list(&fields, arrgen::field_coq), cf::list(rows, arrgen::val_coq), cf::list(arrays, arrgen::array_coq));
+                    let coq = format!("(CBatch {{| c_fields := {}; c_rows := {}; c_impl := (Ok {}) |}})", cf::list(&fields, arrgen::field_coq), cf::list(rows, arrgen::val_coq), cf::list(arrays, arrgen::array_coq));
                     let desc = json!({"history": h, "batch": k, "fields": format!("{:?}", fields.iter().map(|f| (&f.name, &f.data_type, f.nullable)).collect::<Vec<_>>()), "ops": format!("{:?}", ops), "batch_rows": format!("{:?}", rows), "arrays": format!("{:?}", arrays)});
                     let idx = ctx.add_case(coq, desc, nb >= 2);
                     // (a) one-shot conversion of the same rows
@@ -91,14 +91,66 @@ pub fn run(ctx: &mut Ctx) {
             Out::Err(e) => {
                 // histories are made of valid rows only: a failure means the builder state was disturbed by an earlier build
                 let desc = json!({"history": h, "fields": format!("{:?}", fields), "ops": format!("{:?}", ops), "error": e});
-                let idx = ctx.add_case(format!("{{| c_fields := []; c_rows := []; c_impl := (Ok []) |}}"), desc, true);
+                let idx = ctx.add_case(format!("(CBatch {{| c_fields := []; c_rows := []; c_impl := (Ok []) |}})"), desc, true);
                 // is the failure reproducible on a fresh builder with the same rows? then it is not a history effect
                 let all: Vec<Val> = ops.iter().flat_map(|o| match o { Op::Push(v) => vec![v.clone()], Op::Extend(v) | Op::Wrapper(v) => v.clone(), Op::Build => vec![] }).collect();
                 if let Out::Ok(_) = guarded(|| serde_arrow::to_marrow(&fields, &all).map_err(|e| e.to_string())) {
                     ctx.fail(idx, "history_fails_but_one_shot_succeeds", format!("history {}: {}", h, e));
                 }
             }
-            Out::Panic(p) => { let idx = ctx.add_case(format!("{{| c_fields := []; c_rows := []; c_impl := (Panic PExternal) |}}"), json!({"history": h, "ops": format!("{:?}", ops)}), true); ctx.fail(idx, "panic", p); }
+            Out::Panic(p) => { let idx = ctx.add_case(format!("(CBatch {{| c_fields := []; c_rows := []; c_impl := (Panic PExternal) |}})"), json!({"history": h, "ops": format!("{:?}", ops)}), true); ctx.fail(idx, "panic", p); }
         }
+        }
+    // histories over one dictionary column, compared with the dictionary builder model: repeated and new
+    // strings, everything with a to_string, nulls, Option / newtype layers, builds (also empty and repeated)
+    dict_stream(ctx);
+}
+
+fn dict_stream(ctx: &mut Ctx) {
+    use crate::arrgen::IK;
+    use marrow::datatypes::{DataType, Field};
+    let n = if ctx.thorough { 4000 } else { 400 };
+    let keys = [(DataType::Int8, "I8"), (DataType::Int16, "I16"), (DataType::Int32, "I32"), (DataType::Int64, "I64"), (DataType::UInt8, "U8"), (DataType::UInt16, "U16"), (DataType::UInt32, "U32"), (DataType::UInt64, "U64")];
+    for h in 0..n {
+        let mut rng = ctx.rng.fork();
+        let (kdt, kname) = keys[rng.below(keys.len())].clone();
+        let large = rng.chance(1, 2);
+        let nullable = rng.chance(1, 2);
+        let field = Field { name: "c".into(), data_type: DataType::Dictionary(Box::new(kdt), Box::new(if large { DataType::LargeUtf8 } else { DataType::Utf8 })), nullable, metadata: Default::default() };
+        // a small pool so that strings repeat within and across batches; a long tail when the key type is narrow
+        let pool: Vec<String> = if rng.chance(1, 12) { (0..200).map(|i| format!("s{}", i)).collect() } else { vec!["a".into(), "".into(), "bb".into(), "é".into(), "true".into(), "7".into(), "x".into()] };
+        let nops = 2 + rng.below(14);
+        let mut ops: Vec<Option<Val>> = vec![];   // None = build
+        for _ in 0..nops {
+            if rng.chance(1, 4) { ops.push(None); continue; }
+            if pool.len() > 100 && rng.chance(1, 2) { for s in &pool { ops.push(Some(Val::Str(s.clone()))); } continue; }   // more distinct strings than an 8-bit key type can number
+            for _ in 0..1 {
+                let v = match rng.below(12) {
+                    0 if nullable => Val::None, 1 if nullable => Val::Unit,
+                    2 => Val::Bool(rng.chance(1, 2)), 3 => Val::Int(IK::I32, 7), 4 => Val::Char(*rng.pick(&['x', 'é'])), 5 => Val::UnitVariant(0, rng.pick(&pool).clone()),
+                    6 => Val::Some(Box::new(Val::Str(rng.pick(&pool).clone()))), 7 => Val::Newtype(Box::new(Val::Str(rng.pick(&pool).clone()))),
+                    _ => Val::Str(rng.pick(&pool).clone()),
+                };
+                ops.push(Some(v));
+            }
+        }
+        ops.push(None);
+        let res = guarded(|| -> Result<Vec<Array>, String> {
+            let mut builder = ArrayBuilder::from_marrow(std::slice::from_ref(&field)).map_err(|e| e.to_string())?;
+            let mut outs = vec![];
+            for op in &ops {
+                match op {
+                    Some(v) => builder.push(&Val::Struct(vec![("c".into(), v.clone())], 0)).map_err(|e| e.to_string())?,
+                    None => { let mut a = builder.to_marrow().map_err(|e| e.to_string())?; outs.push(a.remove(0)); }
+                }
+            }
+            Ok(outs)
+        });
+        ctx.count(&format!("dictionary_history:{}", res.class()));
+        let ops_coq = cf::list(&ops, |o| match o { Some(v) => format!("(DPush {})", arrgen::val_coq(v)), None => "DBuild".into() });
+        let coq = format!("(CDict {} {} {} {} {})", kname, if large { "BLargeUtf8" } else { "BUtf8" }, cf::boolean(nullable), ops_coq, res.coq(|a| cf::list(a, arrgen::array_coq)));
+        let desc = json!({"dictionary_history": h, "field": format!("{:?}", field), "ops": format!("{:?}", ops), "impl": match &res { Out::Ok(a) => format!("{:?}", a), Out::Err(e) => format!("Err({})", e), Out::Panic(p) => format!("Panic({})", p) }});
+        let idx = ctx.add_case(coq, desc, true);
+        if let Out::Panic(p) = &res { ctx.fail(idx, "panic", p.clone()); }
     }
 }
